@@ -82,6 +82,36 @@ pub struct LCase {
     pub sched: SchedCfg,
     /// percent of clock jumps that do not wait for quiescence first (slow-thread mode); 0 = fast-CPU mode
     pub slow_clock: u8,
+    /// scenario K2: real `varlink::Connection` + `MethodCall` clients, each in its own task on its
+    /// own connection, running beside the raw peers
+    #[serde(default)]
+    pub clients: Vec<RealClient>,
+}
+
+#[derive(Clone, Debug, Serialize, Deserialize, PartialEq)]
+pub struct COp {
+    pub method: String,
+    pub params: Value,
+    /// 0 call(), 1 more() iterated to the end, 2 oneway()
+    pub mode: u8,
+}
+
+#[derive(Clone, Debug, Serialize, Deserialize, PartialEq)]
+pub struct RealClient {
+    pub ops: Vec<COp>,
+    pub cli_read_plan: Vec<u16>,
+    pub srv_read_plan: Vec<u16>,
+}
+
+#[derive(Default, Debug, Clone)]
+pub struct RealObs {
+    pub tx: Vec<u8>,
+    pub rx: Vec<u8>,
+    /// per operation: the outcomes it produced ("Ok:<json>", "E:<kind>", one per item for more())
+    pub outcomes: Vec<Vec<String>>,
+    pub finished: bool,
+    pub accepted: bool,
+    pub srv_shutdown: bool,
 }
 
 impl LCase {
@@ -96,6 +126,7 @@ impl LCase {
             steps,
             sched,
             slow_clock: 0,
+            clients: vec![],
         }
     }
     pub fn fault_injecting(&self) -> bool {
@@ -141,6 +172,7 @@ pub struct LObs {
     pub rec_calls: Vec<crate::model::Dispatch>,
     pub rec_upgraded: Vec<u8>,
     pub finished: bool,
+    pub real: Vec<RealObs>,
 }
 
 struct Env {
@@ -245,6 +277,54 @@ pub fn run_l(case: &LCase) -> (SimEnd, crate::sched::SimStats, LObs) {
             drop(w);
             net2.cv.notify_all();
         });
+        // ---- K2: real clients
+        let real_out: Arc<StdMutex<Vec<RealObs>>> = Arc::new(StdMutex::new(vec![RealObs::default(); c.clients.len()]));
+        let mut real_ids: Vec<usize> = Vec::new();
+        let mut real_handles = Vec::new();
+        for (k, rc) in c.clients.iter().enumerate() {
+            let id = net.connect(ConnOpts {
+                srv_read_plan: rc.srv_read_plan.clone(),
+                cli_read_plan: rc.cli_read_plan.clone(),
+                ..Default::default()
+            });
+            real_ids.push(id);
+            let (r, w) = crate::net::client_pair(&net, id);
+            let (ops, ro) = (rc.ops.clone(), real_out.clone());
+            real_handles.push(shuttle::thread::spawn(move || {
+                let mut cn = varlink::Connection::default();
+                cn.reader = Some(std::io::BufReader::new(Box::new(r)));
+                cn.writer = Some(Box::new(w));
+                let conn = Arc::new(shuttle::sync::RwLock::new(cn));
+                for op in &ops {
+                    let mut mc = varlink::MethodCall::<Value, Value, varlink::Error>::new(conn.clone(), op.method.clone(), op.params.clone());
+                    let show = |r: std::result::Result<Value, varlink::Error>| match r {
+                        Ok(v) => format!("Ok:{}", v),
+                        Err(e) => format!("E:{:?}", e.kind()),
+                    };
+                    let mut outs: Vec<String> = Vec::new();
+                    match op.mode {
+                        0 => outs.push(show(mc.call())),
+                        2 => outs.push(match mc.oneway() {
+                            Ok(()) => "Ok".into(),
+                            Err(e) => format!("E:{:?}", e.kind()),
+                        }),
+                        _ => match mc.more() {
+                            Err(e) => outs.push(format!("E:{:?}", e.kind())),
+                            Ok(it) => {
+                                for (j, r) in it.enumerate() {
+                                    outs.push(show(r));
+                                    if j > 200 {
+                                        break;
+                                    }
+                                }
+                            }
+                        },
+                    }
+                    ro.lock().unwrap_or_else(|e| e.into_inner())[k].outcomes.push(outs);
+                }
+                ro.lock().unwrap_or_else(|e| e.into_inner())[k].finished = true;
+            }));
+        }
         let n = c.conns.len();
         let streams: Vec<Vec<u8>> = c.conns.iter().map(|x| x.stream.to_vec()).collect();
         let mut env = Env {
@@ -408,6 +488,12 @@ pub fn run_l(case: &LCase) -> (SimEnd, crate::sched::SimStats, LObs) {
         let done = net.lock().listen_result.is_some();
         if done {
             let _ = listen_task.join();
+            let all = real_out.lock().unwrap_or_else(|e| e.into_inner()).iter().all(|r| r.finished);
+            if all {
+                for h in real_handles {
+                    let _ = h.join();
+                }
+            }
         }
         varlink::verif::unregister("l");
         // ---- copy the observation out
@@ -430,6 +516,16 @@ pub fn run_l(case: &LCase) -> (SimEnd, crate::sched::SimStats, LObs) {
                 co.client_closed = cn.client_closed;
                 co.multi_msg_reads = cn.srv_reads_multi_msg;
             }
+        }
+        {
+            let mut r = real_out.lock().unwrap_or_else(|e| e.into_inner()).clone();
+            for (k, id) in real_ids.iter().enumerate() {
+                r[k].tx = w.conns[*id].client_tx.clone();
+                r[k].rx = w.conns[*id].client_rx.clone();
+                r[k].accepted = w.conns[*id].accepted.is_some();
+                r[k].srv_shutdown = w.conns[*id].srv_shutdown.is_some();
+            }
+            o.real = r;
         }
         o.log = w.log.clone();
         o.cnt = w.cnt.clone();
@@ -524,7 +620,7 @@ pub fn judge_l(case: &LCase, end: &SimEnd, o: &LObs) -> LVerdict {
         .conns
         .iter()
         .filter(|c| {
-            c.srv_first_io.is_some()
+            matches!((c.srv_first_io, o.released_at), (Some((s, _)), Some((r, _))) if s < r)
                 && match (c.srv_closed, o.released_at) {
                     (Some((s, _)), Some((r, _))) => s > r,
                     (None, _) => true,
@@ -667,7 +763,12 @@ pub fn judge_l(case: &LCase, end: &SimEnd, o: &LObs) -> LVerdict {
                     let vd = check_stream(&case.cfg, &m2, &obs2);
                     for x in vd.violations {
                         if x.clause == "unanswered-while-open" {
-                            let stranded = co.srv_first_io.is_none();
+                            // no worker had touched the connection when the peers were released
+                            let stranded = match (co.srv_first_io, o.released_at) {
+                                (None, _) => true,
+                                (Some((s, _)), Some((r, _))) => s > r,
+                                _ => false,
+                            };
                             if stranded && in_service_at_release >= case.max {
                                 // every slot is taken: waiting is what the bound demands
                                 continue;
@@ -692,9 +793,170 @@ pub fn judge_l(case: &LCase, end: &SimEnd, o: &LObs) -> LVerdict {
             probes.push(("one_server_read_returned_ge_2_requests", 1));
         }
     }
+    // ---- K2: real clients
+    for (k, (rc, ro)) in case.clients.iter().zip(o.real.iter()).enumerate() {
+        judge_real_client(case, k, rc, ro, &mut v, &mut probes);
+    }
     // ---- C15: the life of the listen loop
     judge_c15(case, o, &mut v, &mut probes);
     LVerdict { violations: v, inconclusive, probes }
+}
+
+fn outcome_matches(frame: &Value, out: &str) -> bool {
+    match frame.get("error").and_then(|e| e.as_str()) {
+        None => {
+            let want = frame.get("parameters").cloned().filter(|p| !p.is_null()).unwrap_or_else(|| json!({}));
+            out == format!("Ok:{}", want)
+        }
+        Some(name) => {
+            if !out.starts_with("E:") {
+                return false;
+            }
+            let param = |field: &str| {
+                frame
+                    .get("parameters")
+                    .and_then(|p| p.get(field))
+                    .and_then(|s| s.as_str())
+                    .unwrap_or("")
+                    .to_string()
+            };
+            match name {
+                "org.varlink.service.InterfaceNotFound" => out == format!("E:InterfaceNotFound({:?})", param("interface")),
+                "org.varlink.service.MethodNotFound" => out == format!("E:MethodNotFound({:?})", param("method")),
+                "org.varlink.service.MethodNotImplemented" => out == format!("E:MethodNotImplemented({:?})", param("method")),
+                "org.varlink.service.InvalidParameter" => out == format!("E:InvalidParameter({:?})", param("parameter")),
+                other => out.starts_with("E:VarlinkErrorReply(") && out.contains(other),
+            }
+        }
+    }
+}
+
+fn conn_level_err(out: &str) -> bool {
+    out.starts_with("E:ConnectionClosed") || out.starts_with("E:Io(") || out.starts_with("E:ConnectionBusy") || out.starts_with("E:SerdeJson")
+}
+
+/// scenario K2: a real client talking to the real server. Server side: the wire against the model of
+/// what the client sent. Client side: every outcome against the frames that were on the wire.
+fn judge_real_client(case: &LCase, k: usize, rc: &RealClient, ro: &RealObs, v: &mut Vec<Violation>, probes: &mut Vec<(&'static str, u64)>) {
+    if !ro.accepted {
+        return;
+    }
+    let model = model_stream(&case.cfg, &ro.tx);
+    let obs = StreamObs {
+        wire: &ro.rx,
+        end: if ro.srv_shutdown {
+            ObsEnd::Closed { kind: "server shutdown".into() }
+        } else {
+            ObsEnd::Open { tail: None, iface: None }
+        },
+        panicked: None,
+        upgraded_record: None,
+        dispatches: None,
+        socket: true,
+        faulted: false,
+        upgrade_mode: case.cfg.upgrade_mode,
+    };
+    let vd = check_stream(&case.cfg, &model, &obs);
+    let wire_ok = vd.violations.is_empty();
+    for mut x in vd.violations {
+        x.detail = format!("real client {}: {}", k, x.detail);
+        v.push(x);
+    }
+    if !ro.finished {
+        v.push(viol(
+            "C07",
+            "client-hangs",
+            format!("real client {} did not finish its {} operations (completed {})", k, rc.ops.len(), ro.outcomes.len()),
+        ));
+        return;
+    }
+    if !wire_ok {
+        return;
+    }
+    probes.push(("real_client_finished", 1));
+    let (raw, _) = split_nul(&ro.rx);
+    let frames: Vec<Value> = raw.iter().map(|f| serde_json::from_slice(f).unwrap_or(Value::Null)).collect();
+    let mut fi = 0usize;
+    let mut prev_oneway = false;
+    let mut dead = false;
+    for (oi, (op, outs)) in rc.ops.iter().zip(ro.outcomes.iter()).enumerate() {
+        if op.mode == 2 {
+            if outs.len() != 1 || (outs[0] != "Ok" && !(dead && conn_level_err(&outs[0]))) {
+                v.push(viol("C04", "client-oneway", format!("real client {} op #{} oneway({}) returned {:?}", k, oi, op.method, outs)));
+            }
+            prev_oneway = true;
+            continue;
+        }
+        // this operation's reply group on the wire
+        let start = fi;
+        while fi < frames.len() {
+            let cont = frames[fi].get("continues") == Some(&json!(true));
+            fi += 1;
+            if !cont {
+                break;
+            }
+        }
+        let group = &frames[start..fi];
+        let complete = group.last().map_or(false, |f| f.get("continues") != Some(&json!(true)));
+        if !complete {
+            // the server ended the connection: every further outcome is a connection-level error
+            dead = true;
+        }
+        let clause_prop: &'static str = if prev_oneway { "C04" } else if op.mode == 1 { "C05" } else { "C07" };
+        let clause = if prev_oneway { "call-after-oneway" } else if op.mode == 1 { "client-iteration" } else { "client-outcome" };
+        prev_oneway = false;
+        if op.mode == 0 {
+            let ok = match group.last() {
+                Some(f) if complete => outs.len() == 1 && outcome_matches(f, &outs[0]),
+                _ => outs.len() == 1 && conn_level_err(&outs[0]),
+            };
+            if !ok {
+                v.push(viol(
+                    clause_prop,
+                    clause,
+                    format!(
+                        "real client {} op #{} call({}): the wire carried {} but the call returned {:?}",
+                        k,
+                        oi,
+                        op.method,
+                        group.last().map(|f| f.to_string()).unwrap_or_else(|| "nothing (connection ended)".into()),
+                        outs
+                    ),
+                ));
+            }
+        } else {
+            let mut ok = true;
+            for (j, f) in group.iter().enumerate() {
+                match outs.get(j) {
+                    Some(o) if outcome_matches(f, o) => {}
+                    _ => ok = false,
+                }
+            }
+            if complete {
+                ok &= outs.len() == group.len();
+            } else {
+                ok &= outs.len() == group.len() + 1 && outs.last().map_or(false, |o| conn_level_err(o));
+            }
+            if !ok {
+                v.push(viol(
+                    clause_prop,
+                    clause,
+                    format!(
+                        "real client {} op #{} more({}): the wire carried {} frames {:?}, the iteration yielded {:?}",
+                        k,
+                        oi,
+                        op.method,
+                        group.len(),
+                        group.iter().map(|f| f.to_string().chars().take(80).collect::<String>()).collect::<Vec<_>>(),
+                        outs
+                    ),
+                ));
+            }
+        }
+        if dead {
+            break;
+        }
+    }
 }
 
 fn judge_c15(case: &LCase, o: &LObs, v: &mut Vec<Violation>, probes: &mut Vec<(&'static str, u64)>) {
@@ -1709,5 +1971,6 @@ fn life_case(cfg: &SvcCfg, rng: &mut Rng, hist: u64, idle: u64, stopm: u64, init
         steps,
         sched: SchedCfg::random(rng, 1),
         slow_clock: slow,
+        clients: vec![],
     }
 }
